@@ -223,7 +223,7 @@ pub fn judge_line(x: &Vec<u8>, st: &mut Stats) -> Verdict {
     Ok(())
 }
 
-fn gen_case(t: &mut Tape) -> Case {
+pub fn gen_case(t: &mut Tape) -> Case {
     match t.weighted(&[1, 6, 8]) {
         0 => Case(RefAddr::Unknown),
         1 => Case(RefAddr::Tcp4 { src: gen::gen_v4(t), dst: gen::gen_v4(t), sport: gen::gen_port(t), dport: gen::gen_port(t) }),
